@@ -44,7 +44,9 @@ FLOORS = {"quick": {"sessions": 5000, "steps": 60000, "steps:NO-outcomes": 6000,
 SHARD_TIMEOUT = {"quick": 600, "thorough": 3000}
 
 NAMES_CONV = ["main", "vacation", "x y", "été", "spam-rules"]
-NAMES_ANY = ["main", 'q"q', "{5}", "OK", "a\\b", "ACTIVE"]
+NAMES_ANY = ["main", 'q"q', "{5}", "OK", "a\\b", "ACTIVE",
+             # at most 1024 octets raw, more than 1024 once '"' and '\\' are escaped
+             "x" * 1000 + '"' * 20, "\\" * 513, 'é"' * 341]
 
 
 def plan(tier, seed):
